@@ -34,6 +34,20 @@ where
         _ => {}
     }
 
+    #[cfg(feature = "verif-hooks")]
+    {
+        use crate::verif::{hit, Site};
+        match inter {
+            LineIntersection::None => hit(Site::PiNone),
+            LineIntersection::Point(_) if se1.point == se2.point || other1.point == other2.point => {
+                hit(Site::PiPointSharedEndpoint)
+            }
+            LineIntersection::Point(_) => hit(Site::PiPoint),
+            LineIntersection::Overlap(_, _) if se1.is_subject == se2.is_subject => hit(Site::PiOverlapSameOperand),
+            LineIntersection::Overlap(_, _) => {}
+        }
+    }
+
     match inter {
         LineIntersection::None => 0, // No intersection
         LineIntersection::Point(_) if se1.point == se2.point || other1.point == other2.point => {
@@ -47,9 +61,13 @@ where
         }
         LineIntersection::Point(inter) => {
             if se1.point != inter && other1.point != inter {
+                #[cfg(feature = "verif-hooks")]
+                crate::verif::hit(crate::verif::Site::PiDivideFirst);
                 divide_segment(se1, inter, queue);
             }
             if se2.point != inter && other2.point != inter {
+                #[cfg(feature = "verif-hooks")]
+                crate::verif::hit(crate::verif::Site::PiDivideSecond);
                 divide_segment(se2, inter, queue);
             }
             1
@@ -81,6 +99,8 @@ where
             }
 
             if left_coincide {
+                #[cfg(feature = "verif-hooks")]
+                crate::verif::hit(crate::verif::Site::PiOverlapLeftCoincide);
                 // both line segments are equal or share the left endpoint
                 se2.set_edge_type(EdgeType::NonContributing);
                 if se1.is_in_out() == se2.is_in_out() {
@@ -90,18 +110,24 @@ where
                 }
 
                 if left_coincide && !right_coincide {
+                    #[cfg(feature = "verif-hooks")]
+                    crate::verif::hit(crate::verif::Site::PiOverlapLeftCoincideDivide);
                     divide_segment(&events[1].1, events[0].0.point, queue)
                 }
                 return 2;
             }
 
             if right_coincide {
+                #[cfg(feature = "verif-hooks")]
+                crate::verif::hit(crate::verif::Site::PiOverlapRightCoincide);
                 // the line segments share the right endpoint
                 divide_segment(&events[0].0, events[1].0.point, queue);
                 return 3;
             }
 
             if !Rc::ptr_eq(&events[0].0, &events[3].1) {
+                #[cfg(feature = "verif-hooks")]
+                crate::verif::hit(crate::verif::Site::PiOverlapStaggered);
                 // no line segment includes totally the other one
                 divide_segment(&events[0].0, events[1].0.point, queue);
                 divide_segment(&events[1].0, events[2].0.point, queue);
@@ -113,6 +139,8 @@ where
             // via events[3].1 because that is only a static reference, and the first divide segment
             // internally modifies the other event point (we must access the updated other event).
             // Probably the best solution is to introduce explicit return types for divide_segment.
+            #[cfg(feature = "verif-hooks")]
+            crate::verif::hit(crate::verif::Site::PiOverlapContained);
             divide_segment(&events[0].0, events[1].0.point, queue);
             divide_segment(&events[3].0.get_other_event().unwrap(), events[2].0.point, queue);
 
